@@ -58,11 +58,14 @@ func c13One(n int, pad byte, left bool, s []byte, variant string) (v *ev.Violati
 	case "default":
 		err = codec.WriteFixedString(buf, string(s), n)
 	case "list":
-		err = codec.WriteFixedStringListWithPadding[uint8](buf, []string{string(s), string(s)}, n, rune(pad), left)
-		want = append(append([]byte{2}, want...), want...)
+		// three elements: a full-width one first, so that anything carried over from one element to the next shows
+		full := bytes.Repeat([]byte{'Q'}, n)
+		err = codec.WriteFixedStringListWithPadding[uint8](buf, []string{string(full), string(s), string(s)}, n, rune(pad), left)
+		want = append(append(append([]byte{3}, full...), want...), want...)
 	case "listLE":
-		err = codec.WriteFixedStringListWithPaddingLE[uint16](buf, []string{string(s)}, n, rune(pad), left)
-		want = append([]byte{1, 0}, want...)
+		full := bytes.Repeat([]byte{'Q'}, n)
+		err = codec.WriteFixedStringListWithPaddingLE[uint16](buf, []string{string(full), string(s)}, n, rune(pad), left)
+		want = append(append([]byte{2, 0}, full...), want...)
 	}
 	if err != nil {
 		return c13Vio("write-error", n, pad, left, s, variant, err.Error())
@@ -89,13 +92,15 @@ func c13One(n int, pad byte, left bool, s []byte, variant string) (v *ev.Violati
 		}
 	case "list":
 		r, e := codec.ReadFixedStringListTrimPadding[uint8](rb, n, rune(pad), left)
-		if e != nil || len(r) != 2 || r[0] != string(wantText) || r[1] != string(wantText) {
-			return c13Vio("read-text", n, pad, left, s, variant, fmt.Sprintf("fields %x read as %q (err %v), want 2 x %q", field, r, e, wantText))
+		fullText := string(rm.StripText(bytes.Repeat([]byte{'Q'}, n), pad, left))
+		if e != nil || len(r) != 3 || r[0] != fullText || r[1] != string(wantText) || r[2] != string(wantText) {
+			return c13Vio("read-text", n, pad, left, s, variant, fmt.Sprintf("fields %x read as %q (err %v), want [%q %q %q]", field, r, e, fullText, wantText, wantText))
 		}
 	case "listLE":
 		r, e := codec.ReadFixedStringListTrimPaddingLE[uint16](rb, n, rune(pad), left)
-		if e != nil || len(r) != 1 || r[0] != string(wantText) {
-			return c13Vio("read-text", n, pad, left, s, variant, fmt.Sprintf("field %x read as %q (err %v), want %q", field, r, e, wantText))
+		fullText := string(rm.StripText(bytes.Repeat([]byte{'Q'}, n), pad, left))
+		if e != nil || len(r) != 2 || r[0] != fullText || r[1] != string(wantText) {
+			return c13Vio("read-text", n, pad, left, s, variant, fmt.Sprintf("field %x read as %q (err %v), want [%q %q]", field, r, e, fullText, wantText))
 		}
 	}
 	if rb.Len() != 1 || rb.Bytes()[0] != 0x5A {
